@@ -185,6 +185,12 @@ class Report:
         'known_findings_reported': [i.detail for i in listed],
         'undecided': [i.as_dict() for i in und],
         'notes': self.notes,
+        'normalisation': {
+            'call_sites_brought_to_canonical_argument_form': getattr(self.repo, 'canonicalised_calls', 0),
+            'helpers_inlined_into_anchors': getattr(self.repo, 'flattened', {}),
+            'lowered_or_rewritten_functions': getattr(self.repo, 'lowered', []),
+            'rule': 'functions absent from mmsa/pinned_names.json are inlined into their callers; calls to repository callables use positional-first arguments; iteration forms are brought to the form of the pinned code (DESIGN 9.1)',
+        },
     }
     cov.update(self.extra)
     if self.selftest is not None:
